@@ -287,9 +287,13 @@ def interleaved(sh, fa, rng, case):
     for _ in range(6):
         try:
             d = DatumGen(rng, size_budget=40, big=0.0, omit_defaults=0.0).gen(node_b)
+            if RC.float_out_of_range(node_b, d):
+                continue
             RC.from_datum(node_b, d)
         except RecursionError:
             return  # the evolved schema has no finite value
+        except Exception:
+            continue  # not a datum the model can place: leave it out
         if RC.float_out_of_range(node_b, d) or RC.raw_under_logical(node_b, d):
             continue
         recs_b.append(d)
